@@ -882,6 +882,8 @@ func verifDriverMain() {
 			reply("ok " + r.status())
 		case w[0] == "proxyrelay" || w[0] == "orburst" || w[0] == "sockspipe":
 			reply(verifTCPCommand(w))
+		case w[0] == "c03.orport":
+			reply(verifC03OrPort(w))
 		case w[0] == "log.run":
 			reply(verifLogRun(w))
 		case w[0] == "glue.run":
